@@ -156,6 +156,20 @@ fn robustness_script(t: &mut Tape) -> Script {
     if t.chance(1, 4) {
         s.content_type_mask = t.raw();
     }
+    // cohort attributes far longer than the protocol's 1024 bytes, with multi-byte characters around that offset
+    if t.chance(1, 6) {
+        for h in s.http.iter_mut() {
+            if let HttpSpec::Resp(RespSpec { body: BodySpec::Doc(x, _), .. }) = h {
+                for a in x.apps.iter_mut() {
+                    if t.chance(1, 2) {
+                        let k = t.choose(3);
+                        let n = 1018 + t.choose(8);
+                        a.cohort[k] = Some(format!("{}{}", "a".repeat(n), "\u{e9}\u{4e2d}\u{1f600}tage".repeat(1 + t.choose(3))));
+                    }
+                }
+            }
+        }
+    }
     // a wall clock that leaps by more than 2^64 ms (the far future of the far future) between two readings
     if !s.clock.is_empty() && t.chance(1, 6) {
         let k = t.choose(s.clock.len());
